@@ -258,14 +258,14 @@ Section Readers.
     match e with
     | _ :: _ => ((w, s'), (0, d, at_, e))
     | [] =>
-      match get_parsed (or_fresh a) d with
+      (* the map the recorder works on: the input map; when the inner reader returned
+         that same map, it is the returned map as the inner reader left it *)
+      let same := match a, at_ with Some ai, Some ar => a_id ai =? a_id ar | _, _ => false end in
+      let used := if same then or_fresh at_ else or_fresh a in
+      match get_parsed used d with
       | None => ((w, s'), (n, d, at_, []))
-      | Some (h, a') =>
-          let at' := match a, at_ with
-                     | Some ai, Some ar => if a_id ai =? a_id ar then Some a' else at_
-                     | _, _ => at_
-                     end in
-          ((mkRs (r_ctr w + 1) (r_log w ++ [h]), s'), (n, d, at', []))
+      | Some (h, used') =>
+          ((mkRs (r_ctr w + 1) (r_log w ++ [h]), s'), (n, d, if same then Some used' else at_, []))
       end
     end.
 
